@@ -174,8 +174,29 @@ class Ctx:
             json.dump(ev, f, indent=1, ensure_ascii=False, default=str)
         for cls, (what, cnt) in sorted(self.known_seen.items()):
             print(f"KNOWN-FINDING: property={self.pid} class={cls} cases={cnt} {what}")
-        for path, no_input in self.violations:
-            print(f"VIOLATION property={self.pid} replay={path}" + (" no-failing-input-found" if no_input else ""))
+        concrete = [p_ for p_, ni in self.violations if not ni]
+        if concrete:
+            # the search found a failing input: it is the replay; the obligations that broke are recorded inside it
+            broken = []
+            for p_, ni in self.violations:
+                if ni:
+                    try:
+                        with open(p_, encoding="utf-8") as f:
+                            b_ = json.load(f)
+                        broken.append({k: (str(v)[:600]) for k, v in b_.items() if k in ("kind", "obligation", "count", "model")})
+                    except Exception:
+                        pass
+            if broken:
+                with open(concrete[0], encoding="utf-8") as f:
+                    r_ = json.load(f)
+                r_["broken_obligations"] = broken
+                with open(concrete[0], "w", encoding="utf-8") as f:
+                    json.dump(r_, f, indent=1, ensure_ascii=False, default=str)
+            for path in concrete:
+                print(f"VIOLATION property={self.pid} replay={path}")
+        else:
+            for path, no_input in self.violations:
+                print(f"VIOLATION property={self.pid} replay={path} no-failing-input-found")
         self.log(f"done: violations={len(self.violations)} known={len(self.known_seen)} wall={wall:.1f}s")
         return 1 if self.violations else 0
 
